@@ -22,7 +22,7 @@ FEATURES = ["component-actual-not-shifted-to-dummy-bounds",
 def first_feature(sig):
     """The highest-priority known mechanism named in a `wrong[..]|features`
     signature (None for every other signature)."""
-    mat = re.match(r"^InlineTrans\|wrong\[[^\]]*\]\|(.+)$", sig)
+    mat = re.match(r"^InlineTrans\|wrong\|(.+)$", sig)
     if not mat:
         return None
     feats = mat.group(1).split("+")
@@ -64,14 +64,13 @@ FINDINGS = [
      "Routine.copy() leaves the array bounds of copied symbols pointing at the symbols "
      "of the original routine, see C15 / fixes/C15-copy-repoint-symbols-in-types.diff), "
      "the generated caller uses an undeclared name",
-     lambda s: re.match(r"InlineTrans\|invalid:undeclared\([mn][xyz](,[mn][xyz])*\)@stmt\|", s)
-     is not None, None),
+     lambda s: s == "InlineTrans|invalid:undeclared-extent-dummy@stmt", None),
     ("C07-automatic-array-bounds-not-substituted",
      "a local automatic array of the inlined routine whose bounds use a dummy argument "
      "(integer :: la(nx)) is declared in the caller with the dummy's name in its bounds: "
      "the generated caller uses an undeclared name",
-     lambda s: re.match(r"InlineTrans\|invalid:undeclared\([mn][xyz](,[mn][xyz])*\)@decl(\+stmt)?\|",
-                        s) is not None, None),
+     lambda s: s in ("InlineTrans|invalid:undeclared-extent-dummy@decl",
+                     "InlineTrans|invalid:undeclared-extent-dummy@decl+stmt"), None),
     ("C07-structure-member-actual-lower-bound",
      "an array component actual argument (w%d) associated with a dummy whose lower bound "
      "is not 1 (x(0:mx), x(2:)) is indexed with the dummy's subscripts without shifting "
